@@ -125,16 +125,35 @@ Proof.
        repeat match type of X with context [if ?b then _ else _] => destruct b end; simpl in X; intuition discriminate.
 Qed.
 
-Definition glive (r : wrec) : bool := is_live (wpcf r).
+Lemma live_upd_same : forall (f : nat -> wrec) k r l, is_live (wpcf r) = is_live (wpcf (f k)) ->
+  length (filter (fun w => is_live (wpcf (upd f k r w))) l) = length (filter (fun w => is_live (wpcf (f w))) l).
+Proof.
+  intros. apply (cnt_ext (fun w => is_live (wpcf (upd f k r w))) (fun w => is_live (wpcf (f w)))).
+  intros. destruct (upd_cases _ f k r x) as [(-> & ->) | (_ & ->)]; auto.
+Qed.
 
-Lemma nlive_cnt : forall s, nlive s = cnt (fun w => glive (wk s w)) (wids s).
-Proof. reflexivity. Qed.
+Lemma live_upd_die : forall (f : nat -> wrec) k r l, NoDup l -> In k l ->
+  is_live (wpcf (f k)) = true -> is_live (wpcf r) = false ->
+  S (length (filter (fun w => is_live (wpcf (upd f k r w))) l)) = length (filter (fun w => is_live (wpcf (f w))) l).
+Proof.
+  intros. pose proof (cnt_upd_in wrec (fun r => is_live (wpcf r)) f k r l H H0) as X.
+  unfold cnt in X. cbv beta in X. rewrite H1, H2 in X. lia.
+Qed.
+
+Lemma live_new : forall (f : nat -> wrec) k r l, ~ In k l -> is_live (wpcf r) = true ->
+  length (filter (fun w => is_live (wpcf (upd f k r w))) (k :: l)) = S (length (filter (fun w => is_live (wpcf (f w))) l)).
+Proof.
+  intros. simpl. rewrite upd_same, H0. simpl. f_equal.
+  apply (cnt_upd_notin wrec (fun r => is_live (wpcf r)) f k r l H).
+Qed.
 
 Lemma W1b_step : forall s l s', TB s -> (lock s = None -> todo s = []) -> ALock s -> WF s -> W1b s ->
   step s l = Some s' -> W1b s'.
 Proof.
   intros s l s' (_ & _ & _ & T4 & T5 & ND) AT AL F (I1 & I2) H.
-  step_inv H; hold_facts; cs_facts; unfold W1b; rewrite !nlive_cnt in *; ssimp; ifs; ssimp;
+  step_inv H; hold_facts; cs_facts; unfold W1b, nlive, wpc_of in *; ssimp; ifs; ssimp;
     try (split; assumption).
+  all: rewrite ?live_upd_same by (cbn [wpcf]; try reflexivity; congruence).
+  all: try (split; assumption).
   all: show.
 Admitted.
